@@ -418,7 +418,8 @@ func (e *env) modify(s *session, st *Step) {
 func (e *env) drainAndProcess(s *session) {
 	rs, term := e.drain(s)
 	e.processResults(s, rs)
-	if term != nil && term.Error() != "EOF" {
+	if term != nil && term.Error() != "EOF" && !s.termChecked {
+		s.termChecked = true
 		e.probe("Modify RPC ended with an error")
 		e.checkTermination(s, term)
 	}
